@@ -1029,8 +1029,15 @@ Section WithVars.
     | o => o
     end.
 
-  (* fn TypeChecker::solve (2011) *)
+  (* matches!(statement, Statement::Blob { .. } | Statement::Enum { .. }) *)
+  Definition is_type_decl (s : stmt) : bool :=
+    match s with SBlob _ _ _ _ _ _ | SEnum _ _ _ _ _ => true | _ => false end.
+
+  (* fn TypeChecker::solve (2153).  Since 3c0758d the type declarations are gone through once before everything else
+     (a blob or enum may mention a type declared further down: the first time the mention of a type that has not been
+     seen copies a still-unknown type), and again, in place, with all the statements. *)
   Definition solve (R : arec) (stmts : list stmt) (start_var : option var) : M unit :=
+    iterM (fun s => outer_statement R s ctx_new) (filter is_type_decl stmts) ;;;
     iterM (fun s => outer_statement R s ctx_new) stmts ;;;
     match start_var with
     | Some v =>
